@@ -56,8 +56,17 @@ def run_case(case):
         if r.rc != 0:
             raise scen.CaseError("setup sync failed")
         tpl = Template(a)
-        trig_list = list(TRIGGERS) if tier == "thorough" else rng.sample(TRIGGERS, 4)
-        for trig in trig_list:
+        base_list = list(TRIGGERS) if tier == "thorough" else ["parity-truncated"] + rng.sample([t for t in TRIGGERS if t != "parity-truncated"], 3)
+        trig_list = []
+        for t in base_list:
+            if t == "parity-truncated":
+                # every level on its own, emptied completely or cut somewhere
+                for l_ in range(a.nlev):
+                    for k_ in (("zero", "part") if tier == "thorough" else (rng.choice(["zero", "zero", "part"]),)):
+                        trig_list.append((t, l_, k_))
+            else:
+                trig_list.append((t, None, None))
+        for (trig, lsel, ksel) in trig_list:
             for mixed in ((False, True) if tier == "thorough" else (rng.random() < 0.5,)):
                 tpl.restore()
                 # the model must follow the restore: rebuild entries from state0 is not needed, we only mutate on disk below
@@ -126,14 +135,17 @@ def run_case(case):
                     c = a.load_content()
                     if c.blockmax < 2:
                         continue
-                    l = rng.randrange(a.nlev)
-                    target = "level %d" % l
+                    l = lsel
                     used = [p for p in a.ppaths(l) if os.path.exists(p) and os.path.getsize(p) >= c.blocksize]
                     if not used:
                         continue
-                    p = rng.choice(used)
+                    p = used[0] if ksel == "zero" else rng.choice(used)
                     sz = os.path.getsize(p)
-                    cut = (rng.randint(0, max(0, sz // c.blocksize - 1))) * c.blocksize + rng.choice([0, 0, 1, 513])
+                    if ksel == "zero":
+                        cut = 0
+                    else:
+                        cut = (rng.randint(0, max(0, sz // c.blocksize - 1))) * c.blocksize + rng.choice([0, 0, 1, 513])
+                    target = "level %d cut to %d of %d" % (l, cut, sz)
                     with open(p, "r+b") as f:
                         f.truncate(cut)
                     override = ["-F"]
